@@ -163,7 +163,7 @@ Definition example_run : list cmd :=
   [CreateNode 1 1; CreateDb 1 1 0 HOUR; CreateMst 1 1 1; CreateSg 1 1 1700042400000000005 0;
    UpdateRp 1 1 None (Some DAY) false; CreateSg 1 1 1700053200000000000 0; CreateNode 2 2; CreateSg 1 1 0 0;
    DeleteSg 1 1 1; CreateSg 1 1 1700042400000000005 0; CancelDeleteSg 1 1 1; PruneSg 1; PruneIg 77; Restore;
-   CreateMstBad 1 1 2; RenameRp 1 1 2 None None false; RemoveNode 1; CreateSg 1 0 MINNANO 1; Restore;
+   CreateMstBad 1 1 2; RenameRp 1 1 2 None None false; RenameRp 1 0 0 None None false; SetDefault 1 2; RemoveNode 1; CreateSg 1 0 MINNANO 1; Restore;
    MarkRp 1 2; DropRp 1 2; CreateSg 1 0 5 0; DropDb 3].
 
 Example C16_example_env : env_run (init_cat_rep 1 true) example_run.
@@ -174,5 +174,5 @@ Proof. split; [apply env_run_env_run0; exact C16_example_env | constructor]. Qed
 
 Example C16_example_state :
   let c := run true true (init_cat_rep 1 true) example_run in
-  wf_b c = true /\ covered_b c = true /\ map db_default (dbs c) = [0] /\ length (pols c) = 0%nat.
+  wf_b c = true /\ covered_b c = true /\ map db_default (dbs c) = [0] /\ map rp_name (pols c) = [0].
 Proof. vm_compute. repeat split. Qed.
